@@ -110,7 +110,7 @@ def run(ctx):
             viol += 1
         stats = [st]
     for st in stats:
-        ctx.note("recorded %s: %d traces, %d events, gets=%s reused=%s" % (st["profile"], st["traces"], st["events"], st["extra"].get("gets"), st["extra"].get("reused_gets")))
+        ctx.note("recorded %s: %d traces, %d events, gets=%s reused=%s" % (st["profile"], st["traces"], st["events"], st.get("extra", {}).get("gets"), st.get("extra", {}).get("reused_gets")))
     mm, tot = pool_mismatches(ctx, stats)
     ctx.note("validated %d events (%d judged), %d mismatches" % (tot["lines"], tot["judged"], len(mm)))
     for n, m in enumerate(mm[:20]):
@@ -119,8 +119,8 @@ def run(ctx):
         viol += 1
         print("VIOLATION property=%s replay=%s" % (ctx.prop, path))
         print("  at line %d: op=%s class=%s expected=%s observed=%s" % (m["line"], m["op"], m["cls"], m["exp"], m["got"]))
-    gets = sum(st["extra"].get("gets", 0) for st in stats)
-    reused = sum(st["extra"].get("reused_gets", 0) for st in stats)
+    gets = sum(st.get("extra", {}).get("gets", 0) for st in stats)
+    reused = sum(st.get("extra", {}).get("reused_gets", 0) for st in stats)
     if reused == 0:
         ctx.note("NOTE: no Get returned a previously pooled buffer in this run (freshness holds trivially; reuse path not exercised)")
     samples = []
@@ -136,7 +136,7 @@ def run(ctx):
                rule="distinct_nontrivial counts distinct (operation, use kind, reused flag, buffer length, capacity, channels, goroutine count) tuples among the recorded events; reused_gets counts Gets that returned a previously pooled buffer (the path no repository test executes); every Get/Use/Check event carries the full projection of the buffer and is compared with the Pool.tla state",
                model=dict(module="MCPool", params=params, depth=mc["depth"], exhaustive=True, spec_mutant_PutAsPinned_refuted=True),
                race_detector_reports=races if ctx.prop == "C11" else None, exhaustive=False, apalache_inductive_invariant=apa,
-               run_configs={k: v for st in stats for k, v in st["extra"].items()})
+               run_configs={k: v for st in stats for k, v in st.get("extra", {}).items()})
     assumptions = ["TLC/SANY/Json module trusted", "sync.Pool's choice between a pooled and a new buffer is nondeterministic in the model and bound by the logged identity",
                    "the harness keeps every buffer referenced, so pointer identity is storage identity (when it deliberately drops an original after reslicing from frame 0, the identity follows the slice and the forgotten pointer is unregistered)"]
     if ctx.prop == "C11":
